@@ -196,6 +196,26 @@ def enum_conversion_tables(fn, enum):
     return sorted(ints.items()), [(n, ints[i]) for n, i in names.items() if i in ints]
 
 
+HIER_INS = ["Int", "PushInt", "IntcInstruction", "Addr", "Txn", "Gtxn", "Gtxns", "Global", "Eq", "Neq", "Less", "LessE", "Greater", "GreaterE",
+            "And", "Or", "Not", "Add", "Sub", "Assert", "Return", "Err", "BZ", "BNZ", "TealerCustomErrInstruction", "B", "Callsub", "Retsub",
+            "Switch", "Match", "Label", "Pragma", "Intcblock"]
+HIER_TXF = ["RekeyTo", "CloseRemainderTo", "AssetCloseTo", "Sender", "Fee", "TypeEnum", "OnCompletion", "ApplicationID", "GroupIndex"]
+HIER_GF = ["GroupSize", "ZeroAddress", "CreatorAddress"]
+
+
+def class_hierarchy():
+    from tealer.teal.instructions import instructions as I
+    from tealer.teal.instructions import transaction_field as TF
+    from tealer.teal import global_field as GF
+    out = []
+    for mod, names in ((I, HIER_INS), (TF, HIER_TXF), (GF, HIER_GF)):
+        classes = [c for c in vars(mod).values() if inspect.isclass(c)]
+        for n in names:
+            base = getattr(mod, n)
+            out.append((n, sorted({c.__name__ for c in classes if issubclass(c, base)})))
+    return out
+
+
 def gen_consts():
     from tealer.utils import algorand_constants as AC
     from tealer.utils import teal_enums as TE
@@ -208,6 +228,11 @@ def gen_consts():
     ty_ints, ty_names = enum_conversion_tables(TE.transaction_type_to_tealer_type, TE.TealerTransactionType)
     out = ["/- REGENERATED on every run by harness/extract.py from /repo (do not edit). -/",
            "namespace Tealer.Generated", "",
+           "/-- for every instruction / field class the analyses test with `isinstance`: the classes of its module that ARE instances of it",
+           "    (itself and its subclasses).  The views of PyView.lean read `isinstance(x, C)` as `type(x) is C` (one exception:",
+           "    IntcInstruction), which is right exactly when this table is the one of the specification. -/",
+           "def classHierarchy : List (String × List String) := [" + ", ".join(
+               f"({lean_str(n)}, [" + ", ".join(lean_str(x) for x in subs) + "])" for n, subs in class_hierarchy()) + "]",
            f"def MAX_GROUP_SIZE : Nat := {AC.MAX_GROUP_SIZE}",
            f"def MAX_UINT64 : Nat := {AC.MAX_UINT64}",
            f"def MAX_TRANSACTION_COST : Nat := {AC.MAX_TRANSACTION_COST}",
